@@ -477,6 +477,11 @@ where
         for i in from..stored_to {
             if unlikely(hole_iter.peek() == Some(&&i)) {
                 hole_iter.next();
+                // A deleted slot may still carry an overlay entry (restored by a
+                // rollback): consume it so the overlay stays in step with `i`.
+                if update_iter.peek().is_some_and(|&(&k, _)| k == i) {
+                    update_iter.next();
+                }
                 byte_off += Self::SIZE_OF_T;
                 continue;
             }
@@ -530,6 +535,11 @@ where
         for i in from..stored_to {
             if unlikely(hole_iter.peek() == Some(&&i)) {
                 hole_iter.next();
+                // A deleted slot may still carry an overlay entry (restored by a
+                // rollback): consume it so the overlay stays in step with `i`.
+                if update_iter.peek().is_some_and(|&(&k, _)| k == i) {
+                    update_iter.next();
+                }
                 byte_off += Self::SIZE_OF_T;
                 continue;
             }
